@@ -96,6 +96,8 @@ type Driver struct {
 	Trace    []string
 	keepTrace bool
 	PollNo   int
+	parked   *parkedYield
+	parkEnabled bool
 	HoldData bool
 	SettleExhausted bool
 	lastPoll time.Time
@@ -139,6 +141,7 @@ func (d *Driver) sleep(dur time.Duration) {
 
 // Poll grants the event loop one epoll_wait (after the 200 ms timeout if nothing is ready).
 func (d *Driver) Poll() {
+	d.serviceYield()
 	runtime.VerifSetRand(true, d.T.rngNextForMap())
 	if !d.K.AnyReady() {
 		time.Sleep(200 * time.Millisecond)
